@@ -368,6 +368,8 @@ theorem compute_refines_aux0 (N : Nat) : ∀ node : Node, sizeOf node < N → No
     rw [desugar.eq_def] at hd
     split at hd
     · -- return
+      split at hd
+      · cases hd
       cases hd
       exact ⟨_, by rw [Analysis.compute] <;> rfl, refines_skip idx dg [] notSkip_nil⟩
     · cases hd
